@@ -21,6 +21,10 @@ DK = {"db": "D_db", "dw": "D_dw", "dl": "D_dl", "pointer": "D_pointer"}
 
 
 def observe(case):
+    if "earlier_src" in case:
+        # another program assembled first in the same process (a library user, a test runner): the case's own
+        # result is specified for the case alone, so whatever the earlier run left behind must not show
+        asmdriver.assemble(case["earlier_src"], case.get("files"), rom=case.get("rom"))
     ob = asm.observe(case)
     if "twin_src" in case:
         tw = asmdriver.assemble(case["twin_src"], case.get("twin_files", case.get("files")), rom=case.get("rom"),
